@@ -710,6 +710,11 @@ func (sc *Scope) call(x *SExpr) Val {
 		default:
 			return scalar(tFloat64, App("sumFR", arr, a.sOff(), a.sLen(), arg(1).T()))
 		}
+	case "sel":
+		// sel(a, i): element of a ghost array
+		a, i := arg(0), arg(1)
+		var t types.Type = tBool
+		return scalar(t, Sel(a.T(), i.T()))
 	case "heapOf":
 		// heapOf(T.f): the current value of field f for all objects, as an array (argument for recursive spec functions)
 		if len(x.Args) != 1 || x.Args[0].Kind != SSel || x.Args[0].Args[0].Kind != SIdent {
